@@ -61,7 +61,7 @@ func (its *MongoCollections) UpdateDatatype(
 	if err != nil {
 		return errors.ServerDBQuery.New(ctx.L(), err.Error())
 	}
-	if result.ModifiedCount == 1 || result.UpsertedCount == 1 {
+	if result.MatchedCount == 1 || result.UpsertedCount == 1 {
 		return nil
 	}
 	return errors.ServerDBQuery.New(ctx.L(), "fail to update datatype")
